@@ -11,6 +11,7 @@ from fractions import Fraction
 import numpy as np
 
 from harness import vlib
+from harness import fpheap
 from harness.fpgen import CLS, KINDS, attempt, dump_fp, gen_fp, make_fp, fpm, rat
 
 BITS = [1, 2, 7, 64, 1024, 99999, 100000, 2 ** 20, 2 ** 31 - 1, 2 ** 31, 2 ** 32]
@@ -18,6 +19,7 @@ ROUTES = ["indices", "dense", "sparse", "bitstring", "rdkit", "pickle", "file"]
 EXTS = [".fp.pkl", ".fp.gz", ".fp.bz2", ".fps.gz", ".pkl"]
 
 
+@fpheap.with_heap_cases(("repr",), 60, 1500)
 class C10(vlib.Check):
     id = "C10"
     props_modules = ["E3fpVerif.Props.C10"]
